@@ -176,7 +176,7 @@ pub fn write_seeds(target: &str, dir: &std::path::Path, seed: u64) -> usize {
     };
     match target {
         "chain_fast" | "chain_plugins" => {
-            let mut names: Vec<_> = std::fs::read_dir(crate::chain::REPO_TESTS).map(|rd| rd.flatten().map(|e| e.path()).collect()).unwrap_or_default();
+            let mut names: Vec<_> = std::fs::read_dir(crate::chain::repo_tests()).map(|rd| rd.flatten().map(|e| e.path()).collect()).unwrap_or_default();
             names.sort();
             for p in names {
                 let ext = p.extension().and_then(|e| e.to_str()).unwrap_or("").to_string();
